@@ -79,6 +79,17 @@ def run(chk):
         add("R-mixed", xs, k, model=len(xs) <= 12, comp=rng.choice([1, 2]),
             engines=("symdel", "kdtree") if k > 1 else ("symdel", "hash_based", "kdtree"))
         add_two("R-mixed", xs[: len(xs) // 2 + 1], xs[len(xs) // 3:], k)
+    # ONE length class only, with frame-shifted pairs (one deletion + one insertion: Levenshtein 2, Hamming up to the length):
+    # equal length does not make the two distances equal
+    for _ in range(8 if not thorough else 60):
+        L = rng.randint(4, 8)
+        root = "".join(rng.choice("ACDQS") for _ in range(L))
+        fam = [root, root[1:] + rng.choice("ACD"), rng.choice("ACD") + root[:-1], root[:2] + root[3:] + "F", gen.mutate(rng, root, "ACDQS", 1)]
+        fam = [x for x in fam if len(x) == L] + ["".join(rng.choice("ACDQS") for _ in range(L)) for _ in range(rng.randint(0, 3))]
+        k = rng.choice([2, 2, 3])
+        add("one-length-frameshift", fam, k, model=False, comp=rng.choice([1, 2]),
+            engines=("symdel", "kdtree") if L > 6 else ("symdel", "hash_based", "kdtree"))
+        add_two("one-length-frameshift", fam[: len(fam) // 2 + 1], fam[1:], k)
     chk.exhaustive = True
     b.run()
     # histories on one database object mixing the two modes (each answer must equal a fresh one-shot search in ITS mode)
